@@ -275,6 +275,57 @@ func (r *Run) faultedOut(resp *Resp, bucket string, keys ...string) bool {
 	return true
 }
 
+// faultedUpload judges an upload of one key that was hit by an injected disk
+// fault.  Faults are one-shot: exactly one file-system call of the operation
+// fails, and since nothing failed before it, it is a call of the upload's
+// forward path; whatever the server does to clean up afterwards runs without
+// faults.  So the outcome is determinate: an upload that was refused left the
+// key as it was, or (the fs backends unlink the previous object before they
+// create the new one) absent - never partial, never with other metadata, and
+// no directories behind; an upload that was acknowledged although a disk call
+// failed is stored whole.  The model follows what is observed, so that the
+// checks that come later (listings, emptiness of the bucket) stay exact.
+// It reports false when the generic relaxation has to take over.
+func (r *Run) faultedUpload(resp *Resp, bucket, key string, ent *model.Entity, kind string) bool {
+	if !r.me().faulted || r.Plan.Config.AutoBucket || r.Plan.Config.CrashAll {
+		return false
+	}
+	b := r.M.Buckets[bucket]
+	if b == nil || b.Versioning != "" {
+		return false
+	}
+	if k := b.Keys[key]; k != nil && k.Indet {
+		return false
+	}
+	r.faultSeen = true
+	old := liveOf(r.M, bucket, key)
+	ks := r.observeKey(bucket, key)
+	if resp.OK() {
+		r.M.Put(b, key, ent)
+		if now := liveOf(r.M, bucket, key); !entityMatches(ks, now) {
+			r.fail("fault.clean", fmt.Sprintf("an upload (%s) acknowledged although a disk call failed is not stored whole %s", kind, r.bctx()),
+				descEnt(now), ks.String())
+		}
+		r.stats.Mutations++
+		r.probe("upload acknowledged although a disk call failed")
+	} else {
+		switch {
+		case entityMatches(ks, old):
+		case ks.Status == 404:
+			// the previous object is gone: the fs backends replace by unlink + create
+			r.M.Delete(b, key)
+			r.probe("refused upload lost the previous object (unlink before create)")
+		default:
+			r.fail("fault.clean", fmt.Sprintf("an upload (%s) refused after a disk error left neither the previous object nor nothing behind %s", kind, r.bctx()),
+				descEnt(old)+" or absent", ks.String())
+		}
+		r.probe("upload refused after a disk error: key state determinate")
+	}
+	r.ok("fault.clean")
+	r.logf("  -> hit by an injected disk fault: %s, key state resolved by observation", resp.String())
+	return true
+}
+
 // serverFailure charges a 5xx answer to a correct request: after an injected
 // disk fault has hit some other operation it is C09's "still answers correct
 // requests" clause, otherwise the given clause.
@@ -543,6 +594,9 @@ func (r *Run) opPut(op *Op) {
 		resp = r.send(r.putRequest(op, target(op.B, op.Key, nil), ent.Body), op.Faults, r.frag(op))
 	}
 	r.noPanic(resp, "put object")
+	if r.faultedUpload(resp, op.B, op.Key, ent, uploadKind(op)) {
+		return
+	}
 	if r.faultedOut(resp, op.B, op.Key) {
 		return
 	}
